@@ -3,6 +3,7 @@ from __future__ import annotations
 
 import os
 import random
+import re
 import shutil
 
 from .. import iosim
@@ -19,7 +20,7 @@ BUDGET_CLASSES = ("hang",)
 CPU_FLOOR_S = 30.0
 AS_CAP = 4 << 30
 PROBES = ["entry_direct", "entry_read_file", "entry_cli", "entry_archive_zip", "entry_archive_tar", "entry_attachment", "misdirected_route", "alias_route",
-          "s2_member_fault", "accepted_after_fault", "rejected_with_family_error", "cli_exit_1", "cli_exit_0", "nonzero_start_position", "fault_free"]
+          "s2_member_fault", "accepted_after_fault", "rejected_with_family_error", "cli_exit_1", "cli_exit_0", "nonzero_start_position", "fault_free", "cli_special_input_missing", "cli_special_input_directory", "cli_special_input_empty"]
 RULE = ("one run = one corpus document (all 21 extractors; fixtures + stdlib-written seeds) with 0-3 storage / member-read faults, one entry point "
         "(direct, read_file, CLI, ZIP/TAR member, e-mail attachment), one route (own extension, alias, foreign extension) and a stream start "
         "position; distinct non-trivial = (extractor route, entry, first fault kind, outcome class, function-set signature) where a fault was applied")
@@ -39,7 +40,11 @@ def warm():
 
 
 def gen_case(rng: random.Random, tier: str) -> dict:
-    return iosim.gen_case(rng, tier, fault_free_p=0.08, s2_bias=0.5)
+    c = iosim.gen_case(rng, tier, fault_free_p=0.08, s2_bias=0.5)
+    if c["entry"] == "cli" and rng.random() < 0.12:
+        c["special"] = rng.choice(["missing", "directory", "empty"])  # not a readable document at all: still exit 1 / one line
+        c["ops"] = []
+    return c
 
 
 def classify_harness(rec, payload):
@@ -83,6 +88,8 @@ def run_case(case: dict) -> dict:
         probes["nonzero_start_position"] = 1
     kind0 = (case["ops"][0][0] + (":" + case["ops"][0][2][0] if case["ops"][0][0] == "zip" else "")) if case["ops"] else "none"
     outcome = "ok"
+    if case.get("special"):
+        probes["cli_special_input_" + case["special"]] = 1
     if entry == "cli":
         rc, so, se = out.rc, out.stdout or "", out.stderr or ""
         if out.exc is not None:
@@ -98,7 +105,8 @@ def run_case(case: dict) -> dict:
             outcome = "cli_1"
             probes["cli_exit_1"] = 1
             if so:
-                viol.append({"class": "cli_contract", "sig": "exit1_with_stdout", "detail": f"exit 1 but stdout holds {len(so)} chars: {so[:80]!r}; stderr={se[:200]!r} flags={case['flags']}"})
+                first = re.sub(r"\d+", "N", so.strip().splitlines()[0][:40]) if so.strip() else "whitespace"
+                viol.append({"class": "cli_contract", "sig": "exit1_with_stdout|" + first, "detail": f"exit 1 but stdout holds {len(so)} chars: {so[:80]!r}; stderr={se[:200]!r} flags={case['flags']}"})
             if se.count("\n") != 1 or not se.endswith("\n") or not se.strip():
                 viol.append({"class": "cli_contract", "sig": "exit1_stderr_not_one_line", "detail": f"stderr is not exactly one line: {se[:300]!r}"})
         else:
